@@ -458,6 +458,21 @@ func (fv *FV) loopCtx(li *LoopInfo, st *State) *SpecCtx {
 		if sym, ok := st.iters[li.mapIter]; ok {
 			ctx.seen = func(k SVal) string { return sx(sym, k.t) }
 		}
+	} else {
+		// inside the body of a map-range loop, seen() refers to the innermost enclosing one
+		var best *LoopInfo
+		for _, other := range fv.loops {
+			if other != li && other.mapIter != nil && other.blocks[li.head] {
+				if best == nil || len(other.blocks) < len(best.blocks) {
+					best = other
+				}
+			}
+		}
+		if best != nil {
+			if sym, ok := st.iters[best.mapIter]; ok {
+				ctx.seen = func(k SVal) string { return sx(sym, k.t) }
+			}
+		}
 	}
 	return ctx
 }
@@ -556,7 +571,7 @@ func (fv *FV) loopHead(li *LoopInfo, in *State) *State {
 	if li.rangeIdx != nil && li.rangeLenV != nil {
 		idx := h.cells[li.rangeIdx]
 		ln := fv.val(h, li.rangeLenV)
-		fv.assume(h, and(sx("<=", "-1", idx), sx("<=", idx, sx("-", ln, "1"))))
+		fv.assume(h, and(sx("<=", "(- 1)", idx), sx("<=", idx, sx("-", ln, "1"))))
 	}
 	// assume the invariants
 	hctx := fv.loopCtx(li, h)
